@@ -34,11 +34,24 @@ P["C02"] = dict(
         ("Props.C02.C02_null_admitted", "null admitted by nullable:true whatever other rules"),
         ("Props.C02.C02_min_exact", "min compares exact decimal values (strict iff exclusive)"),
         ("Props.C02.C02_max_exact", "max compares exact decimal values (strict iff exclusive)"),
-        ("Props.C02.C02_false_rules_inert", "false-valued nullable / exclusive* change nothing")),
-    runs=[{"cmd": ["sem-rules"]}, {"cmd": ["check-lit-rules"]}, {"cmd": ["formats-diff"]}, {"cmd": ["unquote-diff"]},
+        ("Props.C02.C02_false_rules_inert", "false-valued nullable / exclusive* change nothing"),
+        ("Props.C02.C02_accept_iff_full", "every scalar rule: accept <=> (null and nullable) or (admissible kind and every rule satisfied by the token's MEANING), all applicable rule sets, all scalar tokens; regexp / mail / url / time are oracle parameters"),
+        ("Props.C02.C02_unquote_is_decode", "the library's Unquote = RFC 8259 string decoding (escapes, surrogate pairs, raw UTF-8)"),
+        ("Props.C02.C02_every_numeral_is_token", "every RFC 8259 numeral except 0e.. is in the theorem's domain"),
+        ("Props.C02.C02_precision_exact", "precision depends only on the exact value"),
+        ("Props.C02.C02_precision_is_fraction_digits", "precision p <=> value * 10^p is an integer"),
+        ("Props.C02.C02_length_decoded", "minLength / maxLength bound the UTF-8 length of the DECODED string"),
+        ("Props.C02.C02_const_by_value", "const = equality with the example by value (decoded text / exact number)"),
+        ("Props.C02.C02_enum_type_sensitive", "enum = membership, never across kinds"),
+        ("Props.C02.C02_false_rules_inert_full", "a false-valued nullable / const / exclusive* anywhere in the annotation changes nothing"),
+        ("Props.C02.C02_null_first", "null is decided by nullable alone, whatever other rules are present"),
+        ("Props.C02.C02_enum_by_value_full_false", "known finding K-C10-enumtext as a refuted full statement (enum compares number spellings)"),
+        ("Props.C02.C02_enum_by_value_partial", "outside that class enum membership is by value"),
+        ("Props.C02.C02_every_numeral_full_false", "known finding K-C10-zeroexp as a refuted full statement")),
+    runs=[{"cmd": ["sem-rules"]}, {"cmd": ["sem-rules-full"]}, {"cmd": ["check-lit-rules"]}, {"cmd": ["formats-diff"]}, {"cmd": ["unquote-diff"]},
           {"cmd": ["c18-named", "twins"]}, {"cmd": ["c18-named", "enum"]}],
-    partial="decision logic, nullable, min/max/exclusive (exact, via C10), minLength/maxLength, uuid/date are modelled; regex, enum, const, precision, email/uri/datetime are compared with the code through other checks or are oracles (Go regexp, net/mail, net/url, time)",
-    level_text="Proof (partial): the decision logic of scalar validation is stated outright and proved on the model (accept iff admissible kind and all rules, null by nullable first, false-valued rules inert); min/max are tied to exact decimal values through the C10 theorems. Tie: differential of real Validate/Check vs the Lean model on rule sets with bounds and probes in odd spellings, bounded-exhaustive single-node Check, uuid/date format models, string unquoting.",
+    partial="every scalar rule is inside the model and the accept-iff theorem (min/max/exclusive, precision, minLength/maxLength on the decoded string, const by value, enum, nullable first, false-valued rules inert, uuid/date); the regexp engine, net/mail, net/url and time.Parse(RFC3339) are oracle parameters of the theorem, evaluated in Go for the tie; enum compares number spellings (K-C10-enumtext) and 0e.. numerals are not recognised (K-C10-zeroexp): both stated and refuted as full statements",
+    level_text="Proof (partial): scalar validation with EVERY rule the property names is a Lean model (RulesF.litOKFull: the dispatcher and the constraints as coded) proved equal to a spec over the token's meaning (exact decimal value, decoded string): accept iff null-by-nullable or (admissible kind and every rule satisfied), for all applicable rule sets and all scalar tokens; precision = fraction digits of the exact value, lengths on the decoded string, const by value, enum type-sensitive, false-valued rules inert, Unquote = RFC 8259 decoding; Go regexp / net/mail / net/url / time are oracle parameters. Tie: sem-rules-full (every rule combination the checker accepts x odd spellings, oracle bits computed in Go) and differential of real Validate/Check vs the Lean model on rule sets with bounds and probes in odd spellings, bounded-exhaustive single-node Check, uuid/date format models, string unquoting.",
     level_note="Trusted: Lean kernel; Go stdlib engines (regexp, net/mail, net/url, time.Parse) are oracles; enum/const/regex/precision rules are validated by other checks (c13, c18, number-diff), not proved.",
     technique="Lean 4 theorems on the literal-validation model + differential correspondence")
 
